@@ -3596,6 +3596,17 @@ HT_UniversalSinkKeyValueRef
 status_t
 HashtableMid<KeyType,ValueType,HashFunctorType,SubclassType>::PutBefore(HT_SinkKeyParam key, HT_SinkKeyParam placeBeforeMe, HT_SinkValueParam v)
 {
+   if ((this->_numItems == this->_tableSize)&&(this->IsKeyLocatedInThisContainer(placeBeforeMe)))
+   {
+      // PutAux() may be about to reallocate our table, which would leave (placeBeforeMe) as a dangling reference, so work from a copy of it instead
+      const KeyType tempPlaceBeforeMe(placeBeforeMe);
+      HashtableEntryBaseType * e = PutAux(this->ComputeHash(key), HT_ForwardKey(key), HT_ForwardValue(v), NULL, NULL);
+      if (e == NULL) return B_OUT_OF_MEMORY;
+      HashtableEntryBaseType * f = this->GetEntry(this->ComputeHash(tempPlaceBeforeMe), tempPlaceBeforeMe);
+      if ((f)&&(e != f)) this->MoveToBeforeAux(e, f);
+      return B_NO_ERROR;
+   }
+
    HashtableEntryBaseType * e = PutAux(this->ComputeHash(key), HT_ForwardKey(key), HT_ForwardValue(v), NULL, NULL);
    if (e == NULL) return B_OUT_OF_MEMORY;
    HashtableEntryBaseType * f = this->GetEntry(this->ComputeHash(placeBeforeMe), placeBeforeMe);
@@ -3608,6 +3619,17 @@ HT_UniversalSinkKeyValueRef
 status_t
 HashtableMid<KeyType,ValueType,HashFunctorType,SubclassType>::PutBehind(HT_SinkKeyParam key, HT_SinkKeyParam placeBehindMe, HT_SinkValueParam v)
 {
+   if ((this->_numItems == this->_tableSize)&&(this->IsKeyLocatedInThisContainer(placeBehindMe)))
+   {
+      // PutAux() may be about to reallocate our table, which would leave (placeBehindMe) as a dangling reference, so work from a copy of it instead
+      const KeyType tempPlaceBehindMe(placeBehindMe);
+      HashtableEntryBaseType * e = PutAux(this->ComputeHash(key), HT_ForwardKey(key), HT_ForwardValue(v), NULL, NULL);
+      if (e == NULL) return B_OUT_OF_MEMORY;
+      HashtableEntryBaseType * d = this->GetEntry(this->ComputeHash(tempPlaceBehindMe), tempPlaceBehindMe);
+      if ((d)&&(e != d)) this->MoveToBehindAux(e, d);
+      return B_NO_ERROR;
+   }
+
    HashtableEntryBaseType * e = PutAux(this->ComputeHash(key), HT_ForwardKey(key), HT_ForwardValue(v), NULL, NULL);
    if (e == NULL) return B_OUT_OF_MEMORY;
    HashtableEntryBaseType * d = this->GetEntry(this->ComputeHash(placeBehindMe), placeBehindMe);
